@@ -476,9 +476,17 @@ func (s *Session) Data(r io.Reader) error {
 	if err != nil {
 		return wrapErr(err)
 	}
+	finalized := false
 	defer func() {
 		if err := buf.Remove(); err != nil {
 			s.log.Error("failed to remove buffered body", err)
+		}
+
+		if !finalized {
+			// The message was refused before Commit was reached, the delivery
+			// is still open. Abort it, nobody else will (abort cleans the session).
+			s.abort(bodyCtx)
+			return
 		}
 
 		// go-smtp will call Reset, but it will call Abort if delivery is non-nil.
@@ -497,6 +505,8 @@ func (s *Session) Data(r io.Reader) error {
 		return wrapErr(err)
 	}
 
+	// Commit finalizes the delivery whether it succeeds or not.
+	finalized = true
 	if err := s.delivery.Commit(bodyCtx); err != nil {
 		return wrapErr(err)
 	}
@@ -531,9 +541,17 @@ func (s *Session) LMTPData(r io.Reader, sc smtp.StatusCollector) error {
 	if err != nil {
 		return wrapErr(err)
 	}
+	finalized := false
 	defer func() {
 		if err := buf.Remove(); err != nil {
 			s.log.Error("failed to remove buffered body", err)
+		}
+
+		if !finalized {
+			// The message was refused before Commit was reached, the delivery
+			// is still open. Abort it, nobody else will (abort cleans the session).
+			s.abort(bodyCtx)
+			return
 		}
 
 		// go-smtp will call Reset, but it will call Abort if delivery is non-nil.
@@ -552,6 +570,8 @@ func (s *Session) LMTPData(r io.Reader, sc smtp.StatusCollector) error {
 
 	// We can't really tell whether it is failed completely or succeeded
 	// so always commit. Should be harmless, anyway.
+	// Commit finalizes the delivery whether it succeeds or not.
+	finalized = true
 	if err := s.delivery.Commit(bodyCtx); err != nil {
 		return wrapErr(err)
 	}
